@@ -134,6 +134,50 @@ def dict_shapes(required, optional, extra=()):
     return '|'.join(alts)
 
 
+def keyok_expr(name, keyexpr):
+    """clause: the key (a buffer expression) is acceptable for the cipher"""
+    if name == 'DES3':
+        return 'spec.modes.tdes_key_ok(bytes(%s))' % keyexpr
+    return 'spec.modes.key_len_ok(%d, len(%s))' % (ALG[name], keyexpr)
+
+
+def key_value_expr(name, keyexpr):
+    """clause: the key the native state is keyed with (TDES: after parity adjustment)"""
+    if name == 'DES3':
+        return 'spec.modes.des_parity(bytes(%s))' % keyexpr
+    return 'bytes(%s)' % keyexpr
+
+
+KEY_OPAQUE = ['spec.modes.key_len_ok', 'spec.modes.tdes_key_ok', 'spec.modes.des_parity']
+AKP = C + 'DES3.adjust_key_parity'
+
+
+def adjust_key_parity_contract(variant='call'):
+    """DES3.adjust_key_parity: odd parity per byte; refusal iff the key is not a TDEA key (length, K1 == K2 or K2 == K3).
+    variant 'call' = the form callers use (any length, spec functions opaque); 'tdes' / 'badlen' = the two instances it is
+    proved in: exactly 16 / 24 individual bytes (the function iterates over the key), and every other length"""
+    params = {'key_in': 'bytes'}
+    requires = []
+    if variant == 'tdes':
+        params = {'key_in': 'bytes<16>|bytes<24>'}
+    elif variant == 'badlen':
+        requires = ['len(key_in) != 16 and len(key_in) != 24']
+    return Contract(AKP, params=params, requires=requires,
+                    raises={'ValueError': ('iff', 'not spec.modes.tdes_key_ok(key_in)')},
+                    ensures={'value': 'result == spec.modes.des_parity(key_in)', 'len': 'len(result) == len(key_in)',
+                             'len_ok': 'len(result) == 16 or len(result) == 24', 'bytes': 'isinstance(result, bytes)'},
+                    result='bytes', modifies=[], bv_width=8, opaque=KEY_OPAQUE if variant == 'call' else [])
+
+
+def parity_lemma_contract():
+    ones = ' + '.join('result // %d %% 2' % (2 ** i) for i in range(8))
+    return Contract('spec.modes.lemma_parity', params={'b': 'int[0..255]'}, raises={},
+                    ensures={'arith': 'result == spec.modes.odd_parity(b)',          # the declarative (arithmetic) definition
+                             'key_bits': 'result // 2 == b // 2 and 0 <= result and result <= 255',      # FIPS 46-3: bits 7..1 are the key material
+                             'odd': '(%s) %% 2 == 1' % ones},                         # ... and the byte has an odd number of ones
+                    modifies=[], bv_width=8)
+
+
 def base_cipher_contract(name, have_aesni=True, for_call=False):
     """<cipher>._create_base_cipher(dict_parameters): pops its own parameters, checks the key length, returns a SmartPointer
     that owns a live native block-cipher state keyed with exactly the key passed"""
@@ -147,7 +191,7 @@ def base_cipher_contract(name, have_aesni=True, for_call=False):
         opt.append(('effective_keylen', ['int']))
     shapes = dict_shapes([], [('key', KEYT)] + opt, extra=[('iv', ['bytes'])])
     P = 'result._raw_pointer'
-    keyok = "spec.modes.key_len_ok(%d, len(dict_parameters['key']))" % alg
+    keyok = keyok_expr(name, "dict_parameters['key']")
     bad = "'key' in dict_parameters and not %s" % keyok
     if name == 'ARC2':
         bad = "'key' in dict_parameters and (not %s or not (40 <= dict_parameters.get('effective_keylen', 1024) and dict_parameters.get('effective_keylen', 1024) <= 1024))" % keyok
@@ -156,7 +200,7 @@ def base_cipher_contract(name, have_aesni=True, for_call=False):
         'rest': "('iv' in dict_parameters) == old('iv' in dict_parameters) and len(dict_parameters) == (1 if 'iv' in dict_parameters else 0)",
         'rest_value': "'iv' in dict_parameters ==> dict_parameters['iv'] == old(dict_parameters['iv'])",
         'state': '%s.g_kind == 0 and %s.g_alg == %d and %s.g_block_len == %d and not %s.g_freed and not %s.g_owned' % (P, P, alg, P, BLOCK[name], P, P),
-        'key': "%s.g_key == old(bytes(dict_parameters['key']))" % P,
+        'key': "%s.g_key == old(%s)" % (P, key_value_expr(name, "dict_parameters['key']")),
     }
     stop = LIBS[name][2] + '_stop_operation'
     if name == 'AES':
@@ -171,17 +215,25 @@ def base_cipher_contract(name, have_aesni=True, for_call=False):
         del ensures['rest'], ensures['rest_value'], ensures['popped'], ensures['pair']      # (the destructor is an opaque value for callers)
     return Contract(q, params={'dict_parameters': shapes},
                     raises={'TypeError': ('iff', "'key' not in dict_parameters"), 'ValueError': ('iff', bad)},
-                    ensures=ensures, result='obj:' + SP, modifies=None,
+                    ensures=ensures, result='obj:' + SP, modifies=None, opaque=KEY_OPAQUE[1:] if name == 'DES3' else [],
                     options={'dict_pops': {'dict_parameters': own}})
 
 
-def registry(name='AES', have_aesni=True):
+def registry(name='AES', have_aesni=True, akp=None):
     reg = base_registry()
+    if akp == 'lemma':
+        reg.add(parity_lemma_contract())
+        return reg
+    if akp:
+        reg.add(adjust_key_parity_contract(akp))
+        return reg
     rawapi.install_glue(reg)
     native_classes(reg)
     rawapi.smartpointer_contract(reg, 'obj:native.State')
     install_cipher_lib(reg, name, have_aesni)
     reg.add(base_cipher_contract(name, have_aesni))
+    if name == 'DES3':
+        reg.add(adjust_key_parity_contract('call'))
     return reg
 
 
